@@ -517,10 +517,12 @@ static struct Register {
 		{ Cfg c; c.K = 3; c.nested = true;
 			Cfg cd = c; cd.nLists = 2; (void)cd;
 #if SEL(2, 0)
-			addUnit<ListTarget<PolFunction<VThreading> > >("C02/list/vmutex", 0, c, 4, 5, 2, 3);
+			addUnit<ListTarget<PolFunction<VThreading> > >("C02/list/vmutex/B2", 0, c, 4, 6, 2, 2);
+			addUnit<ListTarget<PolFunction<VThreading> > >("C02/list/vmutex/B3", 1, c, 3, 3, 3, 3);
 #endif
 #if SEL(2, 1)
-			addUnit<ListTarget<PolFunction<ST> > >("C02/list/single", 0, c, 4, 5, 2, 3);
+			addUnit<ListTarget<PolFunction<ST> > >("C02/list/single/B2", 0, c, 4, 6, 2, 2);
+			addUnit<ListTarget<PolFunction<ST> > >("C02/list/single/B3", 1, c, 4, 4, 3, 3);
 #endif
 #if SEL(2, 2)
 			addUnit<ListTarget<PolFunction<SpinT> > >("C02/list/spinlock", 0, c, 4, 5, 1, 2);
@@ -528,7 +530,7 @@ static struct Register {
 #endif
 #if SEL(2, 3)
 			addUnit<DispTarget<PolFunction<VThreading> > >("C02/dispatcher/vmutex", 0, cd, 4, 5, 1, 2);
-			addUnit<DispTarget<PolFunction<ST> > >("C02/dispatcher/single", 1, cd, 4, 5, 2, 3);
+			addUnit<DispTarget<PolFunction<ST> > >("C02/dispatcher/single/B2", 1, cd, 4, 4, 2, 2);
 #endif
 		}
 		// ---- C08 (list part): ledger clauses only
@@ -536,7 +538,7 @@ static struct Register {
 			Cfg cd = c; cd.nLists = 2; (void)cd;
 			Cfg cc = c; cc.comparable = true; (void)cc;
 #if SEL(8, 0)
-			addUnit<ListTarget<PolFunction<ST> > >("C08/list/single", 0, c, 4, 5, 2, 3);
+			addUnit<ListTarget<PolFunction<ST> > >("C08/list/single", 0, c, 4, 6, 2, 2);
 #endif
 #if SEL(8, 1)
 			addUnit<DispTarget<PolFunction<ST> > >("C08/dispatcher/single", 0, cd, 4, 5, 1, 2);
